@@ -52,7 +52,11 @@ class Facts:
             from . import inline, normalize
             self.aligned = normalize.normalize(self.raw)
             self.inlined = inline.inline_unknown_helpers(self.raw)
-            self.unknown_fns = inline.unknown_local_fns(self.raw)
+            # a new helper is "absorbed" (analysed inside its callers) only if it was actually spliced
+            # somewhere: a new function nobody in the crate calls directly (a trait-impl method reached
+            # through std, a new public entry point) stays a body of its own
+            spliced = {callee for caller, callee in self.inlined}
+            self.unknown_fns = {p for p in inline.unknown_local_fns(self.raw) if p in spliced}
             self.value_refs = inline.value_referenced(self.raw, self.unknown_fns)
         import os as _os
         if _os.environ.get("VERIF_NO_DESUGAR") != "1":
@@ -864,7 +868,7 @@ class Body:
                 return Expr("fn", path=op["fn"]["path"], info=op["fn"])
             if "int" in op:
                 return Expr("const", v=int(op["int"]), ty=op["ty"])
-            return Expr("text", t=op.get("text", "?"), ty=op["ty"], bytes=op.get("bytes"), elem_ty=op.get("elem_ty"), len=op.get("len"))
+            return Expr("text", t=op.get("text", "?"), ty=op["ty"], bytes=op.get("bytes"), elem_ty=op.get("elem_ty"), len=op.get("len"), variant=op.get("variant"))
         if k in ("copy", "move"):
             return self.expr_of_place(op["pl"], at, depth, seen)
         return Expr("unknown")
